@@ -404,12 +404,21 @@ func (state *state) removeAll(reason error) {
 }
 
 func (state *state) send(msg interface{}, events map[string][]string) error {
+	var firstErr error
+
 	for qStr, clientSubscriptions := range state.subscriptions {
 		q := state.queries[qStr].q
 
 		match, err := q.Matches(events)
 		if err != nil {
-			return fmt.Errorf("failed to match against query %s: %w", q.String(), err)
+			// A query that cannot be evaluated against these events (e.g. a numeric
+			// comparison against a non-numeric value) concerns only the clients
+			// subscribed to it. Keep serving all other subscriptions: aborting here
+			// would make them miss the message depending on map iteration order.
+			if firstErr == nil {
+				firstErr = fmt.Errorf("failed to match against query %s: %w", q.String(), err)
+			}
+			continue
 		}
 
 		if match {
@@ -429,5 +438,5 @@ func (state *state) send(msg interface{}, events map[string][]string) error {
 		}
 	}
 
-	return nil
+	return firstErr
 }
